@@ -208,7 +208,8 @@ class Fxp():
         self.config.update(**kwargs)
 
         # callbacks
-        if self.callbacks is None: self.callbacks = kwargs.pop('callbacks', [])
+        # (explicitly given callbacks override the ones copied from `like` or from the template)
+        self.callbacks = kwargs.pop('callbacks', [] if self.callbacks is None else self.callbacks)
 
         # scaling (an explicit scale / bias overrides the one copied from `like` or from the template)
         self.scale = kwargs.pop('scale', 1 if self.scale is None else self.scale)
